@@ -1,5 +1,6 @@
 /* ghost state shared by all packs */
 #include "verif_prelude.h"
+extern int verif_snprintf_truncated, verif_snprintf_register;
 verif_str_t verif_str[VERIF_NSTR];
 int verif_nstr;
 void verif_register_string(const char *p, size_t len){
@@ -8,7 +9,7 @@ void verif_register_string(const char *p, size_t len){
 }
 /* DFCC havocs statics of the program under analysis: every harness starts with this */
 void verif_ghost_init(void){
-  verif_nstr = 0;
+  verif_nstr = 0; verif_snprintf_truncated = 0; verif_snprintf_register = 0;
   verif_str[0].obj = 0; verif_str[1].obj = 0; verif_str[2].obj = 0; verif_str[3].obj = 0;
   verif_str[4].obj = 0; verif_str[5].obj = 0; verif_str[6].obj = 0; verif_str[7].obj = 0;
 }
